@@ -16,12 +16,12 @@ Proof.
   - now rewrite IH.
 Qed.
 
-Lemma remove_name_app_last (t : list Z) (x : Z) :
-  ~ In x t -> remove_name (t ++ [x]) x = t.
+Lemma remove_name_app_last (t : list (Z * nat)) (x : Z) (n : nat) :
+  ~ In x (map fst t) -> remove_name (t ++ [(x, n)]) x = t.
 Proof.
   induction t as [|y t IH]; intros Hn; cbn.
   - now rewrite Z.eqb_refl.
-  - destruct (Z.eqb_spec y x) as [->|Hne].
+  - destruct (Z.eqb_spec (fst y) x) as [E|Hne].
     + exfalso. apply Hn. now left.
     + rewrite IH; [reflexivity|]. intros H. apply Hn. now right.
 Qed.
@@ -33,22 +33,22 @@ Lemma last_app_last {A} (l : list A) x d : last (l ++ [x]) d = x.
 Proof. apply last_last. Qed.
 
 (* popping exactly the appended names brings both lists back *)
-Lemma pop_vars_added added : forall fuel vs tab,
-  NoDup (tab ++ added) -> length added <= fuel ->
-  pop_vars fuel (vs ++ added) (tab ++ added) (length vs) = (vs, tab).
+Lemma pop_vars_added (added : list (Z * nat)) : forall fuel vs tab,
+  NoDup (map fst (tab ++ added)) -> length added <= fuel ->
+  pop_vars fuel (vs ++ map fst added) (tab ++ added) (length vs) = (vs, tab).
 Proof.
-  induction added as [|x added IH] using rev_ind; intros fuel vs tab Hnd Hf.
-  - rewrite !app_nil_r. destruct fuel; cbn [pop_vars]; [reflexivity|].
+  induction added as [|[x n] added IH] using rev_ind; intros fuel vs tab Hnd Hf.
+  - cbn [map]. rewrite !app_nil_r. destruct fuel; cbn [pop_vars]; [reflexivity|].
     rewrite Nat.ltb_irrefl. reflexivity.
   - rewrite app_length in Hf. cbn in Hf. destruct fuel as [|fuel]; [lia|].
-    cbn [pop_vars]. rewrite !app_assoc.
-    assert (Hlt : (length vs <? length ((vs ++ added) ++ [x])) = true).
+    cbn [pop_vars]. rewrite map_app. cbn [map fst]. rewrite !app_assoc.
+    assert (Hlt : (length vs <? length ((vs ++ map fst added) ++ [x])) = true).
     { apply Nat.ltb_lt. rewrite !app_length. cbn. lia. }
     rewrite Hlt, removelast_app_last, last_app_last.
+    rewrite app_assoc, map_app in Hnd. cbn [map fst] in Hnd.
     rewrite remove_name_app_last.
-    + apply IH; [|lia]. rewrite app_assoc in Hnd. apply NoDup_remove_1 in Hnd.
-      now rewrite app_nil_r in Hnd.
-    + rewrite app_assoc in Hnd. apply NoDup_remove_2 in Hnd. now rewrite app_nil_r in Hnd.
+    + apply IH; [|lia]. apply NoDup_remove_1 in Hnd. now rewrite app_nil_r in Hnd.
+    + apply NoDup_remove_2 in Hnd. now rewrite app_nil_r in Hnd.
 Qed.
 
 (* ------------------------------------------------------------------ what edits cannot change *)
@@ -56,40 +56,58 @@ Qed.
 Record frame (f0 f : func) : Prop := mk_frame {
   fr_orig : original_insns f = original_insns f0;
   fr_ovn : original_vars_num f = original_vars_num f0;
-  fr_added : exists added, vars f = vars f0 ++ added /\ regtab f = regtab f0 ++ added;
-  fr_nodup : NoDup (regtab f);
+  fr_gv : gvars f = gvars f0;
+  fr_added : exists added, vars f = vars f0 ++ map fst added /\ regtab f = regtab f0 ++ added;
+  fr_nodup : NoDup (reg_names f);
+  fr_nums : NoDup (map snd (regtab f))
+            /\ (forall p, In p (regtab f) -> snd p <= length (vars f) + length (gvars f));
   fr_lorig : map (fun l => (l_orig l, l_orig2 l)) (lrefs f) = map (fun l => (l_orig l, l_orig2 l)) (lrefs f0);
   fr_mc : machine_code f = machine_code f0 /\ call_addr f = call_addr f0 /\ faddr f = faddr f0;
   fr_nid : next_id f0 <= next_id f
 }.
 
-Lemma frame_refl f : NoDup (regtab f) -> frame f f.
+Lemma frame_refl f :
+  NoDup (reg_names f) -> NoDup (map snd (regtab f)) ->
+  (forall p, In p (regtab f) -> snd p <= length (vars f) + length (gvars f)) -> frame f f.
 Proof.
-  intros H. constructor; auto. exists []. now rewrite !app_nil_r.
+  intros H H' H''. constructor; auto. exists []. cbn. now rewrite !app_nil_r.
+Qed.
+
+Lemma NoDup_app_last {A} (l : list A) x : NoDup l -> ~ In x l -> NoDup (l ++ [x]).
+Proof.
+  induction l as [|y t IH]; intros Hnd Hn; cbn.
+  - constructor; [intros []|constructor].
+  - inversion Hnd; subst. constructor.
+    + rewrite in_app_iff. intros [Hin|[->|[]]]; [contradiction|]. apply Hn. now left.
+    + apply IH; [assumption|]. intros Hin. apply Hn. now right.
 Qed.
 
 Lemma apply_edit_frame f0 f e : frame f0 f -> frame f0 (apply_edit f e).
 Proof.
-  intros [H1 H2 [added [H3a H3b]] H4 H5 H6 H7].
+  intros [H1 H2 Hg [added [H3a H3b]] H4 [Hn1 Hn2] H5 H6 H7].
   destruct e as [pos lab pl rs|pos|pos pl rs|from to|name|k lab lab2]; cbn [apply_edit].
   - constructor; cbn; auto. exists added; auto.
   - constructor; cbn; auto. exists added; auto.
   - constructor; cbn; auto. exists added; auto.
   - destruct (nth_error (insns f) from); [|constructor; auto; exists added; auto].
     constructor; cbn; auto. exists added; auto.
-  - destruct (existsb (Z.eqb name) (regtab f)) eqn:Ex.
+  - destruct (existsb (Z.eqb name) (reg_names f)) eqn:Ex.
     + constructor; auto. exists added; auto.
-    + constructor; cbn; auto.
-      * exists (added ++ [name]). rewrite H3a, H3b, !app_assoc. auto.
-      * assert (Hn : ~ In name (regtab f)).
-        { intros Hin. assert (existsb (Z.eqb name) (regtab f) = true).
-          { apply existsb_exists. exists name. split; [exact Hin|apply Z.eqb_refl]. }
-          congruence. }
-        clear - H4 Hn. induction (regtab f) as [|y t IH]; cbn.
-        -- constructor; [intros []|constructor].
-        -- inversion H4; subst. constructor.
-           ++ rewrite in_app_iff. intros [Hin|[->|[]]]; [contradiction|]. apply Hn. now left.
-           ++ apply IH; [assumption|]. intros Hin. apply Hn. now right.
+    + assert (Hn : ~ In name (reg_names f)).
+      { intros Hin. assert (existsb (Z.eqb name) (reg_names f) = true).
+        { apply existsb_exists. exists name. split; [exact Hin|apply Z.eqb_refl]. }
+        congruence. }
+      constructor; cbn; auto.
+      * exists (added ++ [(name, new_reg_num f)]). rewrite H3a, H3b, map_app, !app_assoc. auto.
+      * unfold reg_names in *. cbn. rewrite map_app. cbn. apply NoDup_app_last; assumption.
+      * split.
+        -- rewrite map_app. cbn. apply NoDup_app_last; [assumption|].
+           intros Hin. apply in_map_iff in Hin. destruct Hin as [p [Hp Hin]].
+           specialize (Hn2 p Hin). unfold new_reg_num in Hp. lia.
+        -- intros p Hin. rewrite in_app_iff in Hin. rewrite app_length. cbn [length].
+           destruct Hin as [Hin|[<-|[]]].
+           ++ specialize (Hn2 p Hin). lia.
+           ++ cbn. unfold new_reg_num. lia.
   - constructor; cbn; auto.
     + exists added; auto.
     + rewrite map_update_at; [exact H5|]. intros l. reflexivity.
@@ -122,19 +140,34 @@ Qed.
 Theorem restore_mutate_dup f s :
   wf f ->
   restore (mutate s (dup f))
-  = mkfunc (insns f) [] (vars f) (length (vars f)) (regtab f) (lrefs f)
+  = mkfunc (insns f) [] (vars f) (length (vars f)) (gvars f) (regtab f) (lrefs f)
            (next_id (mutate s (dup f))) (machine_code f) (call_addr f) (faddr f).
 Proof.
-  intros [Ho [Hnd [Hlt [Hrefs [Hl [Hnt Hv]]]]]].
-  assert (Hfr : frame (dup f) (mutate s (dup f))) by (apply mutate_frame, frame_refl; exact Hnt).
-  destruct Hfr as [H1 H2 [added [H3a H3b]] H4 H5 [H6a [H6b H6c]] H7].
-  unfold restore. rewrite H1, H2, H3a, H3b, H6a, H6b, H6c. cbn [dup original_insns original_vars_num vars regtab
-    machine_code call_addr faddr].
+  intros [Ho [Hnd [Hlt [Hrefs [Hl [Hnt [Hv [Hnn Hnb]]]]]]]].
+  assert (Hfr : frame (dup f) (mutate s (dup f))) by (apply mutate_frame, frame_refl; assumption).
+  destruct Hfr as [H1 H2 Hg [added [H3a H3b]] H4 Hnums H5 [H6a [H6b H6c]] H7].
+  unfold restore. rewrite H1, H2, Hg, H3a, H3b, H6a, H6b, H6c. cbn [dup original_insns original_vars_num vars regtab
+    gvars machine_code call_addr faddr].
   rewrite pop_vars_added.
   - cbn [fst snd]. f_equal.
     eapply map_restore_dup; [|exact H5]. intros l Hin. destruct (Hl l Hin) as [_ [_ [A B]]]. auto.
-  - rewrite H3b in H4. exact H4.
-  - rewrite app_length. lia.
+  - unfold reg_names in H4. rewrite H3b in H4. exact H4.
+  - rewrite app_length, map_length. lia.
+Qed.
+
+(* while the generator works, every register -- the function's own, the hard-register-tied globals and
+   the generator's temporaries -- has its own number (a temp never aliases an existing register),
+   and no name is declared twice *)
+Theorem working_regs_distinct f s :
+  wf f ->
+  NoDup (map snd (regtab (mutate s (dup f)))) /\ NoDup (reg_names (mutate s (dup f)))
+  /\ gvars (mutate s (dup f)) = gvars f
+  /\ exists added, regtab (mutate s (dup f)) = regtab f ++ added.
+Proof.
+  intros [Ho [Hnd [Hlt [Hrefs [Hl [Hnt [Hv [Hnn Hnb]]]]]]]].
+  assert (Hfr : frame (dup f) (mutate s (dup f))) by (apply mutate_frame, frame_refl; assumption).
+  destruct Hfr as [H1 H2 Hg [added [H3a H3b]] H4 [Hn1 Hn2] H5 H6 H7].
+  repeat split; auto. exists added. exact H3b.
 Qed.
 
 Theorem gen_preserves_view f s : wf f -> view (restore (mutate s (dup f))) = view f.
@@ -185,7 +218,7 @@ Theorem dup_working_copy_closed f :
   /\ map (fun i => (is_label i, payload i)) (insns (dup f)) = map (fun i => (is_label i, payload i)) (insns f)
   /\ original_insns (dup f) = insns f.
 Proof.
-  intros [Ho [Hnd [Hlt [Hrefs [Hl [Hnt Hv]]]]]].
+  intros [Ho [Hnd [Hlt [Hrefs [Hl [Hnt [Hv [Hnn Hnb]]]]]]]].
   set (m := label_map (insns f) (next_id f)).
   assert (Hlab : label_ids (insns (dup f)) = map snd m) by apply label_ids_copy.
   assert (Hfst : map fst m = label_ids (insns f)) by apply label_map_fst.
@@ -216,8 +249,8 @@ Qed.
 Lemma restore_wf f s : wf f -> wf (restore (mutate s (dup f))).
 Proof.
   intros Hw. rewrite restore_mutate_dup by exact Hw.
-  destruct Hw as [Ho [Hnd [Hlt [Hrefs [Hl [Hnt Hv]]]]]].
-  assert (Hfr : frame (dup f) (mutate s (dup f))) by (apply mutate_frame, frame_refl; exact Hnt).
+  destruct Hw as [Ho [Hnd [Hlt [Hrefs [Hl [Hnt [Hv [Hnn Hnb]]]]]]]].
+  assert (Hfr : frame (dup f) (mutate s (dup f))) by (apply mutate_frame, frame_refl; assumption).
   pose proof (fr_nid _ _ Hfr) as Hn. cbn [dup next_id] in Hn.
   unfold wf. cbn. repeat split; auto.
   - intros i Hi. specialize (Hlt i Hi). lia.
